@@ -10,7 +10,7 @@ from . import store as ST
 from .store import Row, same_rows_as_sets, api_rows, show_rows, row_of_event
 
 PROP = "C02"
-OPS = ["insert_one", "insert_many_new", "insert_many_upsert", "insert_many_upsert_single", "replace", "replace_last", "delete_live", "delete_missing", "delete_foreign_id", "reads"]
+OPS = ["insert_one", "insert_many_new", "insert_many_upsert", "insert_many_upsert_single", "insert_many_upsert_same_id_twice", "replace", "replace_last", "delete_live", "delete_missing", "delete_foreign_id", "reads"]
 
 
 def setup(x, bk, n, nother=1):
@@ -92,6 +92,12 @@ def h_op(x, bk, op, n):
             tgt = A[x.choice("target", n)]
             b.insert([C.mk_event(x, new[0].start, new[0].dur, {"tag": x.wrap(new[0].tag)}, id=x.wrap(tgt.id), aligned=False)])
             frame(be, ds, B, [Row(tgt.id, new[0].start, new[0].dur, new[0].tag) if r is tgt else r for r in A], obl)
+        elif op == "insert_many_upsert_same_id_twice":
+            # one batch carries two successive versions of the same live event: the later one is what is stored
+            tgt = A[x.choice("target", n)]
+            b.insert([C.mk_event(x, new[0].start, new[0].dur, {"tag": x.wrap(new[0].tag)}, id=x.wrap(tgt.id), aligned=False),
+                      C.mk_event(x, new[1].start, new[1].dur, {"tag": x.wrap(new[1].tag)}, id=x.wrap(tgt.id), aligned=False)])
+            frame(be, ds, B, [Row(tgt.id, new[1].start, new[1].dur, new[1].tag) if r is tgt else r for r in A], obl)
         elif op == "replace":
             tgt = A[x.choice("target", n)]
             b.replace(x.wrap(tgt.id), ST.event_of_row(x, new[0]))
@@ -178,7 +184,7 @@ def same_id(a, b):
 HOPS = ["insert", "bulk2", "replace", "replace_last", "delete", "upsert1"]
 
 
-def h_history(x, bk, L, pre=0, hops=None):
+def h_history(x, bk, L, pre=0, hops=None, fixed=None):
     """whole histories from the empty store: L operations chosen by forking, event contents symbolic;
     after every step the bucket equals the reference list (cross-check that the inductive pre-states
     are not too strong, and of id allocation across deletes)"""
@@ -195,7 +201,7 @@ def h_history(x, bk, L, pre=0, hops=None):
         for step in range(L):
             live = len(model)
             ops = [o for o in (hops or HOPS) if live or o in ("insert", "bulk2", "bulk1")]
-            op = ops[x.choice("op%d" % step, len(ops))]
+            op = fixed[step] if fixed else ops[x.choice("op%d" % step, len(ops))]
             new = ST.sym_rows(x, "s%d" % step, 2, ids=False)
             if op == "insert":
                 ret = b.insert(ST.event_of_row(x, new[0]))
@@ -226,6 +232,11 @@ def h_history(x, bk, L, pre=0, hops=None):
                 tgt = model[x.choice("t%d" % step, live)]
                 b.insert([C.mk_event(x, new[0].start, new[0].dur, {"tag": x.wrap(new[0].tag)}, id=x.wrap(tgt.id), aligned=False)])
                 model[model.index(tgt)] = Row(tgt.id, new[0].start, new[0].dur, new[0].tag)
+            elif op == "read1":
+                # a limit-1 read on its own (whatever the Bucket / store remembers from it must stay right)
+                last = b.get(limit=1)
+                lr = row_of_event(last[0]) if last else None
+                obl.append(("limit-1-read-is-a-live-newest-event-step%d" % step, And(Or([r.same(lr) for r in model]), And([lr.start >= r.start for r in model])) if lr is not None else False))
             elif op == "replace_last":
                 last = b.get(limit=1)
                 lr = row_of_event(last[0]) if last else None
@@ -268,7 +279,7 @@ def harnesses(tier):
     for bk in bks:
         if bk == "peewee" and tier == "quick":
             continue  # 15 000 paths: thorough tier only
-        for L in ([2] if tier == "quick" else ([2, 3] if bk != "peewee" else [2])):
+        for L in ([2] if tier == "quick" else ([2, 3] if bk == "memory" else [2])):  # (sqlite L3: 58 min alone — replaced by the from-1 / fixed-sequence histories below)
             hs.append((Harness(PROP, "%s-history-L%d" % (bk, L), h_history, dict(bk=bk, L=L), "%s backend: every history of %d operations from the empty store (operation and target chosen by forking, contents symbolic)" % (bk, L), split_depth=8), 3600))
     # state kept inside the store object between calls (caches, counters): sequences of the writes that take
     # no target id, on one store object, from a loaded bucket
@@ -277,6 +288,14 @@ def harnesses(tier):
             hops = ["bulk1", "replace_last"] if (bk == "peewee" and tier == "quick") else ["insert", "bulk1", "replace_last"]
             hs.append((Harness(PROP, "%s-history-L%d-from-1-event-untargeted-writes" % (bk, L), h_history, dict(bk=bk, L=L, pre=1, hops=hops),
                                "%s backend: every sequence of %d operations out of %s (bulk1 = a list of one new event) on one store object, from a bucket already holding one event" % (bk, L, " / ".join(hops)), split_depth=8), 3600))
+    for bk in bks:
+        for seq in (["read1", "bulk2", "replace_last"], ["replace_last", "bulk2", "replace_last"], ["replace_last", "bulk2", "insert", "replace_last"], ["insert", "bulk2", "replace_last"]):
+            if tier == "quick" and seq not in (["replace_last", "bulk2", "replace_last"], ["read1", "bulk2", "replace_last"]):
+                continue
+            if bk == "peewee" and len(seq) > 3:
+                continue
+            hs.append((Harness(PROP, "%s-sequence-%s-from-1-event" % (bk, "-".join(seq)), h_history, dict(bk=bk, L=len(seq), pre=1, fixed=seq),
+                               "%s backend: the sequence %s (every replace_last preceded by its limit-1 read) on one store object and one Bucket object, from a bucket holding one event; contents symbolic" % (bk, " / ".join(seq)), split_depth=8), 1800))
     return hs
 
 
@@ -287,8 +306,9 @@ def meta(chk, tier):
         "pre-state: bucket A with %s events + bucket B with 1 event; ids symbolic and pairwise distinct in [1, 1e6]; AUTOINCREMENT high-water mark symbolic >= every live id" % ("1..2" if tier == "quick" else "1..3"),
         "instants multiples of 1 ms in [1970, ~2103] (ties allowed), durations integer microseconds in [0, 24 h] (zero-length allowed), data {'tag': t} with t in 0..2",
         "one operation per run (inductive step over an arbitrary valid state); operations: " + ", ".join(OPS),
-        "whole histories from the empty store: L = 2 (quick), 3 (thorough) operations out of insert, bulk insert of 2, replace, one-element upsert, replace_last, delete",
+        "whole histories from the empty store: L = 2 (quick), 3 (thorough, memory) operations out of insert, bulk insert of 2, replace, one-element upsert, replace_last, delete",
         "sequences of 3 (thorough: 4; peewee 3) untargeted writes (insert, bulk insert of a one-element list, replace_last; peewee in the quick tier without the plain insert) on one store object from a bucket holding one symbolic event",
+        "fixed sequences on one store object and one Bucket object from a bucket holding one event: replace_last or a bare limit-1 read / bulk insert of 2 / replace_last (quick), also with an insert before or in between (thorough)",
         "backends: memory, sqlite, peewee",
     ]
     chk.stubs = ["sqlite3 -> symex.sqlstub (SQL parsed from the text the source emits; validated against the real library by tools/dualrun.py: 0 divergences on the repository's own tests)",
